@@ -62,6 +62,9 @@ class Theory:
         self.AMT = "f64" if backend == "f64" else "Decimal"
         self.cons = []      # definitional constraints of fresh symbols
         self.side = []      # (description, formula that must hold)  -- discharged by the driver, not assumed
+        self.side_pc = []   # parallel to side: path condition (tuple) under which the operation was executed
+        self.side_kind = []  # parallel: (op, 'sym'|'const', 'sym'|'const')
+        self.cur_pc = ()
         self.n = 0
         self.memo = {}
         self.vars = {}
@@ -190,6 +193,18 @@ class TRed(TReal):
 
     def __init__(self):
         super().__init__("dec")
+        self.side_exact = []
+        self._seen_side = set()
+
+    def _side(self, desc, f, kind, exact=None):
+        k = (desc, f.get_id(), tuple(c.get_id() if hasattr(c, "get_id") else c for c in self.cur_pc))
+        if k in self._seen_side:
+            return
+        self._seen_side.add(k)
+        self.side.append((desc, f))
+        self.side_pc.append(tuple(self.cur_pc))
+        self.side_kind.append(kind)
+        self.side_exact.append(exact)
 
     def const_float_literal(self, text):
         raise Unsupported("float literal in decimal configuration")
@@ -202,7 +217,7 @@ class TRed(TReal):
         x, y = a.term, b.term
         if op in ("Add", "Sub"):
             t = x + y if op == "Add" else x - y
-            self.side.append(("decimal %s stays in range" % op, zabs(t) < Q(DEC_LIMIT)))
+            self._side("decimal %s stays in range" % op, zabs(t) < Q(DEC_LIMIT), (op, "sym", "sym"), exact=t)
             return Amount(t)
         # fpdec shortcuts are value-exact anyway: x*1, 1*x, x/1, 0*x
         if op == "Mul" and self.is_one(b):
@@ -214,12 +229,13 @@ class TRed(TReal):
         key = (op, a.term.get_id(), b.term.get_id())
         if op == "Mul" and key[1] > key[2]:
             key = (op, key[2], key[1])
+        kind = (op, "const" if a.exact is not None else "sym", "const" if b.exact is not None else "sym")
+        t = x * y if op == "Mul" else x / y
+        if op == "Div":
+            self._side("decimal division: divisor non-zero", y != 0, kind)
+        self._side("decimal %s result representable (|exact| < 1e20)" % op, zabs(t) < Q(DEC_LIMIT), kind, exact=t)
         if key in self.memo:
             return self.memo[key]
-        if op == "Div":
-            self.side.append(("decimal division: divisor non-zero", y != 0))
-        t = x * y if op == "Mul" else x / y
-        self.side.append(("decimal %s result representable (|exact| < 1e20)" % op, zabs(t) < Q(DEC_LIMIT)))
         r = self.fresh()
         self.cons.append(z3.And(r - t <= Q(EPS_DEC), t - r <= Q(EPS_DEC)))
         res = Amount(r)
